@@ -23,9 +23,11 @@ BM_EDGES = [{a, b} for a in range(8) for b in range(a + 1, 8) if bin(
 ) == "0b1"]
 
 
-def _quad(rng: random.Random) -> List[List[Fraction]]:
+def _quad(rng: random.Random, kind: str = "general") -> List[List[Fraction]]:
     """A quadrilateral in general position: a jittered, sheared unit square, coordinates in 1/8 steps,
-    corners at pairwise different distances from any of its corners (no ties)."""
+    corners at pairwise different distances from any of its corners (no ties).
+    kind "reflex": planar with one reflex (concave) corner; kind "tiny": the same shapes a few millimetres
+    large (coordinates are metres), strongly warped."""
     while True:
         base = [(0, 0), (8, 0), (8, 8), (0, 8)]
         pts = []
@@ -33,13 +35,32 @@ def _quad(rng: random.Random) -> List[List[Fraction]]:
             pts.append(
                 [Fraction(x + rng.randint(-2, 2), 8), Fraction(y + rng.randint(-2, 2), 8), Fraction(rng.randint(-3, 3), 8)]
             )
+        if kind == "reflex":
+            k = rng.randrange(4)
+            for p in pts:
+                p[2] = Fraction(0)
+            # pull one corner inside, beyond the diagonal of its neighbours
+            opp = pts[(k + 2) % 4]
+            t = Fraction(rng.randint(5, 6), 8)
+            pts[k] = [pts[k][i] + t * (opp[i] - pts[k][i]) for i in range(2)] + [Fraction(0)]
+        if kind == "tiny":
+            sc = Fraction(1, 2 ** rng.randint(7, 9))
+            pts = [[c * sc for c in p] for p in pts]
+            if all(p[2] == pts[0][2] for p in pts):
+                continue
         a = rng.choice([0, 1, 2])
         pts = [[p[(i + a) % 3] for i in range(3)] for p in pts]  # lie in any coordinate plane
-        off = [Fraction(rng.randint(-16, 16), 8) for _ in range(3)]
+        off = [Fraction(rng.randint(-16, 16), 8) * (Fraction(1, 256) if kind == "tiny" else 1) for _ in range(3)]
         pts = [[c + o for c, o in zip(p, off)] for p in pts]
         d = lambda p, q: sum((a - b) ** 2 for a, b in zip(p, q))
         if all(len({d(p, q) for q in pts}) == 4 for p in pts):
             return pts
+
+
+def _slot_pair(slot: str):
+    """corner numbers of the block edge addressed by add_edge on the bottom (b) / top (t) face or add_side_edge (s)"""
+    i = int(slot[1])
+    return {"b": (i, (i + 1) % 4), "t": (i + 4, (i + 1) % 4 + 4), "s": (i, i + 4)}[slot[0]]
 
 
 def _fr(x) -> str:
@@ -53,7 +74,10 @@ class C10(core.Check):
         "face cases: random quadrilateral in general position (rational coordinates) with four distinct edge data, "
         "random sequence (1..6) of invert / shift k (k in -8..8) / reorient near a chosen corner; addressing cases: "
         "random sequence (1..6) of set_patch / project_side / project_edge / project_corner over all 6 sides, all 64 "
-        "corner pairs and 9 corner numbers (invalid ones included), observed on the assembled mesh. Thorough tier also "
+        "corner pairs and 9 corner numbers (invalid ones included), the list form of set_patch (any selection and order of "
+        "sides), remove_edges (no argument / empty list / corner list) and one edge datum put on two edges by corner "
+        "numbers, observed on the assembled mesh; face quads are general (2/3), planar with a reflex corner, or "
+        "millimetre-sized and warped, and the direction of Face.normal is compared with the model's exact vector. Thorough tier also "
         "enumerates all single calls exhaustively. Non-trivial = at least one call that changes the object; distinct = "
         "different call sequence or geometry."
     )
@@ -67,7 +91,9 @@ class C10(core.Check):
         n = 150 if tier == "quick" else 2500
         cases: List[dict] = []
         for _ in range(n):
-            pts = _quad(rng)
+            qkind = rng.choice(["general"] * 4 + ["reflex", "tiny"])
+            pts = _quad(rng, qkind)
+            size = Fraction(1, 256) if qkind == "tiny" else Fraction(1)
             ops = []
             for _ in range(rng.randint(1, 6)):
                 r = rng.random()
@@ -87,9 +113,9 @@ class C10(core.Check):
                                 break
                         ops.append(["reorient", j, [str(c) for c in q]])
                     else:
-                        jit = [Fraction(rng.randint(-1, 1), 32) for _ in range(3)]
+                        jit = [Fraction(rng.randint(-1, 1), 32) * size for _ in range(3)]
                         ops.append(["reorient", j, [str(c + e) for c, e in zip(pts[j], jit)]])
-            cases.append({"kind": "face", "points": [[str(c) for c in p] for p in pts], "ops": ops})
+            cases.append({"kind": "face", "quad": qkind, "points": [[str(c) for c in p] for p in pts], "ops": ops})
         sides = list(BM_SIDE) + ["middle"]
         for _ in range(n):
             calls = []
@@ -113,10 +139,38 @@ class C10(core.Check):
                 elif r < 0.93:
                     # the same list object handed to several project_corner calls
                     calls.append(["pcornerL", rng.randrange(8), rng.choice(["L1", "L2"]), None])
-                else:
+                elif r < 0.96:
                     calls.append(["nface", rng.randrange(6)])
                     if rng.random() < 0.7:
                         calls.append(["nface", rng.randrange(6)])
+                elif r < 0.98:
+                    # the list form of set_patch: any selection of sides in any order (rarely empty, rarely an invalid name)
+                    k = rng.choice([0, 1, 2, 2, 3, 3, 4, 6])
+                    sel = rng.sample(sides[:6], k)
+                    if rng.random() < 0.05:
+                        sel.insert(rng.randrange(len(sel) + 1), "middle")
+                    calls.append(["patchL", "+".join(sel) or "-", rng.choice(["pa", "pb", "pc"])])
+                else:
+                    # remove_edges on the bottom/top face: no argument, an empty list, or a list of corners
+                    r2 = rng.random()
+                    cs = "all" if r2 < 0.2 else "-" if r2 < 0.45 else "+".join(map(str, rng.sample(range(4), rng.randint(1, 3))))
+                    calls.append(["redges", rng.choice(["bottom", "top"]), cs])
+            if rng.random() < 0.3:
+                if rng.random() < 0.5:
+                    sel = rng.sample(sides[:6], rng.choice([2, 2, 3, 3, 4, 6]))
+                    extra = ["patchL", "+".join(sel), rng.choice(["pa", "pb", "pc"])]
+                else:
+                    r2 = rng.random()
+                    cs = "all" if r2 < 0.2 else "-" if r2 < 0.5 else "+".join(map(str, rng.sample(range(4), rng.randint(1, 3))))
+                    extra = ["redges", rng.choice(["bottom", "top"]), cs]
+                calls.insert(rng.randint((len(calls) + 1) // 2, len(calls)), extra)
+            if rng.random() < 0.12:
+                # one edge-data object put on two different edges by corner numbers (last, so that no later
+                # projection writes into the shared object)
+                s1, s2 = rng.sample([f + str(i) for f in "bts" for i in range(4)], 2)
+                calls.append(["sameproj", s1, s2, rng.choice(["g1", "g2"])])
+                if rng.random() < 0.5:
+                    calls.append(["patch", rng.choice(sides[:6]), "pa"])
             # a shared list always carries the label it was created with
             first = {}
             for c in calls:
@@ -134,6 +188,18 @@ class C10(core.Check):
                     cases.append({"kind": "addr", "calls": [["pedge", a, b, "g1"]]})
             for c in range(9):
                 cases.append({"kind": "addr", "calls": [["pcorner", c, "g1"]]})
+            import itertools
+
+            for k in (1, 2, 3):
+                for sel in itertools.permutations(sides[:6], k):
+                    cases.append({"kind": "addr", "calls": [["patchL", "+".join(sel), "pa"]]})
+            slots = [f + str(i) for f in "bts" for i in range(4)]
+            for s1, s2 in itertools.combinations(slots, 2):
+                cases.append({"kind": "addr", "calls": [["sameproj", s1, s2, "g1"]]})
+            for face in ("bottom", "top"):
+                for k in range(5):
+                    for cs in itertools.combinations(range(4), k):
+                        cases.append({"kind": "addr", "calls": [["pside", face, "g1", 1, 0], ["redges", face, "+".join(map(str, cs)) or "-"]]})
             for k in range(-9, 10):
                 cases.append({"kind": "face", "points": [[str(c) for c in p] for p in _quad(rng)], "ops": [["shift", k]]})
         return cases
@@ -151,6 +217,7 @@ class C10(core.Check):
             pid = {id(p): i for i, p in enumerate(face.points)}
             eid = {id(e): i for i, e in enumerate(data)}
             trace = []
+            n0 = [float(x) for x in face.normal]
             for op in case["ops"]:
                 n_before = face.normal
                 if op[0] == "invert":
@@ -167,7 +234,7 @@ class C10(core.Check):
                         "pos": [[float(x) for x in p.position] for p in face.points],
                     }
                 )
-            return {"trace": trace}
+            return {"trace": trace, "n0": n0}
 
         # addressing, observed on the assembled mesh
         hexa = [[0, 0, 0], [1, 0, 0], [1.1, 1, 0], [0, 1.2, 0], [0, 0, 1], [1, 0, 1.3], [1, 1, 1], [0, 1.1, 1.1]]
@@ -185,6 +252,26 @@ class C10(core.Check):
                     facing.append([c[1], next((sd for sd, q in BM_SIDE.items() if q == set(cs)), "none:" + "-".join(map(str, sorted(cs))))])
                 elif c[0] == "patch":
                     op.set_patch(c[1], c[2])
+                elif c[0] == "patchL":
+                    op.set_patch([] if c[1] == "-" else c[1].split("+"), c[2])
+                elif c[0] == "redges":
+                    face = op.bottom_face if c[1] == "bottom" else op.top_face
+                    if c[2] == "all":
+                        face.remove_edges()
+                    else:
+                        face.remove_edges([] if c[2] == "-" else [int(x) for x in c[2].split("+")])
+                elif c[0] == "sameproj":
+                    from classy_blocks.construct.edges import Project
+
+                    datum = Project(c[3])
+                    for slot in (c[1], c[2]):
+                        i = int(slot[1])
+                        if slot[0] == "b":
+                            op.bottom_face.add_edge(i, datum)
+                        elif slot[0] == "t":
+                            op.top_face.add_edge(i, datum)
+                        else:
+                            op.add_side_edge(i, datum)
                 elif c[0] == "pside":
                     op.project_side(c[1], c[2], bool(c[3]), bool(c[4]))
                 elif c[0] == "pedge":
@@ -242,6 +329,7 @@ class C10(core.Check):
                 else:
                     ops.append("reorient:" + ",".join(_fr(c) for c in op[2]))
                 reqs.append(f"c10.face {pts} " + ";".join(ops))
+            reqs.append(f"c10.normal {pts}")
             return reqs
         return ["c10.addr " + ";".join(":".join(str(x) for x in c) for c in case["calls"])]
 
@@ -252,6 +340,14 @@ class C10(core.Check):
                 want = "[" + ",".join(map(str, step["pts"])) + "] [" + ",".join(map(str, step["edges"])) + "]"
                 if ans != want:
                     return f"face after {case['ops']}: implementation {want}, model {ans}"
+            # direction of the normal: the model's exact (unnormalised) vector against the implementation's unit vector
+            raw = [float(Fraction(x)) for x in model[len(impl["trace"])].split()]
+            length = sum(x * x for x in raw) ** 0.5
+            if not length > 0:
+                return f"model normal is zero for {case['points']}"
+            cos = sum(a * b for a, b in zip(raw, impl["n0"])) / length
+            if not cos > 1 - 1e-9:
+                return f"Face.normal: implementation {impl['n0']}, model direction {[x / length for x in raw]}"
             return None
         ans = model[0]
         if "reject" in impl:
@@ -320,6 +416,8 @@ class C10(core.Check):
             # a rejection is a violation only when every call was a valid one
             valid = all(
                 (c[0] in ("patch", "pside") and c[1] in BM_SIDE)
+                or (c[0] == "patchL" and all(x in BM_SIDE for x in c[1].split("+") if c[1] != "-"))
+                or c[0] in ("redges", "sameproj")
                 or (c[0] == "pedge" and {c[1], c[2]} in BM_EDGES)
                 or (c[0] in ("pcorner", "pcornerL") and 0 <= c[1] < 8)
                 or c[0] == "nface"
@@ -352,6 +450,19 @@ class C10(core.Check):
                 exp_e.setdefault(frozenset((c[1], c[2])), set()).add(c[3])
             elif c[0] == "nface":
                 pass
+            elif c[0] == "patchL":
+                for x in [] if c[1] == "-" else c[1].split("+"):
+                    if x not in BM_SIDE:
+                        out.append({"site": "Operation.set_patch:invalid-side-accepted", "what": str(c)})
+                        return out
+                    exp_p[x] = c[2]
+            elif c[0] == "redges":
+                cs = range(4) if c[2] == "all" else [] if c[2] == "-" else [int(x) for x in c[2].split("+")]
+                for k in cs:
+                    exp_e.pop(frozenset(_slot_pair(("b" if c[1] == "bottom" else "t") + str(k))), None)
+            elif c[0] == "sameproj":
+                for slot in (c[1], c[2]):
+                    exp_e[frozenset(_slot_pair(slot))] = {c[3]}
             else:
                 if not 0 <= c[1] < 8:
                     out.append({"site": "Operation.project_corner:invalid-corner-accepted", "what": str(c)})
